@@ -1,11 +1,11 @@
 #!/bin/sh
-# usage: confirm_seed.sh <PID> <mN>
+# usage: confirm_seed.sh <PID> <mN> [base directory, default /tmp/seed]
 # Confirms a sub-agent's seeded change in its scratch worktree: with the patch the crate builds,
 # the unedited suite stays at 1627 passed and the demonstration fails; without it the
 # demonstration passes. On success copies it to /verif/seeded/<PID>-<mN>/.
 set -u
 pid="$1"; m="$2"
-d=/tmp/seed/$pid; wt=$d/wt; out=$d/out
+d=${3:-/tmp/seed}/$pid; wt=$d/wt; out=$d/out
 export CARGO_TARGET_DIR=$d/target CARGO_NET_OFFLINE=true
 feat=""
 case "$pid" in C17|C18|C19) feat="--features garde,validator,miette,robotics";; esac
